@@ -178,7 +178,7 @@ int main(int argc, char **argv) {
         }
     }
     // K21: sieve to N
-    long N = th ? (1L << 20) : (1L << 16);
+    long N = th ? (1L << 22) : (1L << 16);
     std::vector<char> comp(N + 1, 0);
     for (long i = 2; i * i <= N; i++) if (!comp[i]) for (long j = i * i; j <= N; j += i) comp[j] = 1;
     for (long p = 2; p <= N; p++) {
@@ -192,7 +192,7 @@ int main(int argc, char **argv) {
     // K22: SpVecFP histories
     Rng r((uint64_t) env_long("VERIF_SEED", 1) * 1000 + shard);
     long primes_[] = {2, 3, 5, 7, 13, 17, 101, 65521, 2147483647L};
-    int H = th ? 3000 : 400;
+    int H = th ? 30000 : 400;
     for (int h = 0; h < H; h++) {
         long p = primes_[r.below(9)];
         std::string trace;
